@@ -130,7 +130,7 @@ theorem uniqueProtoclustersOld_not_invariant :
       uniqueProtoclusters false 0 l₁ = uniqueProtoclusters false 0 l₂ :=
   ⟨[⟨10, 70, 1, 30, 60, 1⟩, ⟨10, 70, 2, 30, 60, 2⟩], [⟨10, 70, 2, 30, 60, 2⟩, ⟨10, 70, 1, 30, 60, 1⟩], List.Perm.swap _ _ _, by decide, by decide, by decide⟩
 
-/-- D61: between D54 and D61 the key stopped at the product; two protoclusters of one product on the
+/-- D64: between D54 and D64 the key stopped at the product; two protoclusters of one product on the
     same coordinates with different cores (sideloaded annotations) came out in enumeration order;
     with the core in the key they do not -/
 theorem uniqueProtoclustersNoCore_not_invariant :
